@@ -366,9 +366,39 @@ def doArc (t : List String) : String :=
     | _ => "bad"
   | _ => "bad"
 
+/-- `acsu mode N Reff default_bin_size central_bin_size imin imax n bin_size angular_increment`: `ArcCorrection::set_up` (overload
+    `mode`: 0 = (pdi, n, bin_size), 1 = (pdi, n), 2 = (pdi); for 2 `n` is the number the code derived, as data) on the ONE object whose
+    cached arrays the driver keeps in its state; answers the arc-corrected tangential range and the sampling -/
+def doAcsu (ac : ArcCorrState) (t : List String) : ArcCorrState × String :=
+  match t with
+  | [mode, _, reff, defbin, s0, imin, imax, n, bs, ang] =>
+    let I (s : String) : Int := s.toInt?.getD 0
+    let reffF := F (parseHex reff); let angF := F (parseHex ang)
+    let nIn := (I imax - I imin + 1).toNat
+    -- _noarccorr_coords[tp] = R sin((tp - .5) ang)  (ArcCorrection.cxx:112-120), computed in binary64 and taken exactly
+    let edges := (List.range (nIn + 1)).map fun (k : Nat) =>
+      floatToRat (reffF * Float.sin ((Float.ofInt (I imin + k) - 0.5) * angF))
+    let binSize := arcSetUpBinSize (I mode) (parseHex defbin) (parseHex s0) (parseHex bs)
+    let ac' := ac.setUp { inMin := I imin, inMax := I imax, edges := edges, numOut := I n, binSize := binSize }
+    (ac', s!"{ac'.outMin} {ac'.outMax} {fmq ac'.sampling ac'.sampling}")
+  | _ => (ac, "bad")
+
+/-- `acrow | in…`: `do_arc_correction` on one row with the cached arrays of the re-used object -/
+def doAcrow (ac : ArcCorrState) (t : List String) : String :=
+  match splitBar t with
+  | [_, iv] =>
+    let ivq := iv.map parseHex
+    let nOut := (ac.outMax - ac.outMin + 1).toNat
+    let res := ac.correctRow ivq
+    let mag := ac.correctRow (ivq.map absQ)
+    let maxIn := (ivq.map absQ).foldl max 0
+    " ".intercalate ((List.range nOut).map fun j => fmq (getAt res j) (absQ (getAt mag j) + maxIn))
+  | _ => "bad"
+
 structure St where
   fx : Fixes := {}
   cfg : Option Cfg := none
+  ac : ArcCorrState := ArcCorrState.fresh
 
 def stepLine (st : St) (line : String) : St × String :=
   let toks := (line.trimAscii.toString.splitOn " ").filter (· ≠ "")
@@ -379,6 +409,9 @@ def stepLine (st : St) (line : String) : St × String :=
   | "cfg" :: rest => let (c', out) := doCfg rest; ({ st with cfg := c' }, out)
   | "ovl" :: rest => (st, doOvl rest)
   | "arc" :: rest => (st, doArc rest)
+  | ["acnew"] => ({ st with ac := ArcCorrState.fresh }, "ok")
+  | "acsu" :: rest => let (ac', out) := doAcsu st.ac rest; ({ st with ac := ac' }, out)
+  | "acrow" :: rest => (st, doAcrow st.ac rest)
   | "blor" :: rest => (st, doBlor (rest.map parseHex))
   | ["lc2n", k1, k2, z1, z2] => (st, doLc2n st.fx (I k1) (I k2) (I z1) (I z2))
   | ["lnmk", k, j, z1, z2, sw] => (st, doLnmk (I k) (I j) (I z1) (I z2) (I sw))
